@@ -39,6 +39,28 @@ int pth_unjoined(void);
 
 static void submit(struct wrec *w, int continuation);
 
+static int never(void *arg)
+{
+	return 0;
+}
+
+/* the work function takes one second of (virtual) time: the thread is blocked meanwhile, so
+ * everybody else runs without spending preemptions */
+static void work_takes_time(void)
+{
+	long dl = (k_now.sec + 1) * 1000000000L + k_now.nsec;
+
+	if (!sx_opt("wblock", 1) || sx_nthreads() == 1) {
+		sx_sched();
+		return;
+	}
+	sx_block_until(never, NULL, dl);
+	if (k_now.sec * 1000000000L + k_now.nsec < dl) {
+		k_now.sec = dl / 1000000000L;
+		k_now.nsec = dl % 1000000000L;
+	}
+}
+
 static void thread_start(void *c)
 {
 	sx_assert(sx_tid() != owner_tid, "C13.thread_start-in-owner");
@@ -76,7 +98,7 @@ static void work_fn(void *c)
 		sx_cover("work.continuation-from-worker");
 		submit(&W[next_to_submit++], 1);
 	}
-	sx_sched();	/* the work takes a while: others may run */
+	work_takes_time();
 	running_now--;
 	w->work_returned = 1;
 }
